@@ -82,6 +82,13 @@ class StateMonitor:
             s = self.shadow[comp] = Shadow()
         return s
 
+    def adopt(self, copy_, original):
+        """a copy taken of a computer (possibly mid-utterance) is a computer of the same configuration whose current utterance
+        is whatever the original had been given so far"""
+        compmon.adopt(copy_, original)
+        so, sc = self.sh(original), self.sh(copy_)
+        sc.state, sc.calls = so.state, list(so.calls)
+
     def info(self, comp):
         inf = compmon.info(comp)
         kaldi = bool(inf and inf["args"] and inf["args"].get("kaldi_shift", False))
@@ -379,6 +386,64 @@ def run_history(comps, rng, rec, mon, n_utts):
     return sig
 
 
+def run_copies(template, rng, rec, mon):
+    """Copies of one computer (deep copies / pickle round trips, as made for a pool of workers), each working through its own utterance
+    chunk by chunk *in turn*, so that several objects are mid-utterance at once; one of them is forked (copied again) mid-utterance
+    and both branches continue.  Each object sees a plain chunk .. chunk, finalize sequence and is compared with a new instance."""
+    from ..common import copied
+
+    ways = ["deepcopy", "pickle", "deepcopy"]
+    objs = [template]
+    for w in ways[: int(rng.integers(1, 4))]:
+        c = copied(template, w)
+        mon.adopt(c, template)
+        objs.append(c)
+        rec.count("computer_copies_by_" + w)
+    inf = compmon.info(template)
+    width = inf["ir_widths"][0] if inf and len(inf["ir_widths"]) == 1 else None
+    lc = length_classes(template, width)
+    plans = []
+    for o in objs:
+        N = int(lc[str(rng.choice(["frames", "many", "block", "frame", "many"]))])
+        x = gen.signal(rng, N, str(rng.choice(["noise", "noise", "sine", "noise_big"])), np.float64)
+        x.setflags(write=False)
+        step = int(rng.choice([1, 3, max(1, template.frame_shift), template.frame_length + 1, 37]))
+        plans.append([o, x, step, 0])
+    fork_at = int(rng.integers(1, 4))
+    rounds = 0
+    while any(p[3] < len(p[1]) for p in plans):
+        rounds += 1
+        for p in list(plans):
+            o, x, step, pos = p
+            if pos < len(x):
+                try:
+                    o.compute_chunk(x[pos:pos + step])
+                except Exception:
+                    rec.count("history_call_raised")  # (judged by the monitor where it happens)
+                p[3] = pos + step
+        if rounds == fork_at:
+            o, x, step, pos = plans[0]
+            if pos < len(x):
+                f = copied(o, "deepcopy")
+                mon.adopt(f, o)
+                y = np.concatenate([x[:pos], gen.signal(rng, int(rng.integers(0, 2 * template.frame_length + 2)), "noise", np.float64)])
+                y.setflags(write=False)
+                plans.append([f, y, step, pos])
+                rec.count("computers_forked_mid_utterance")
+    for p in plans:
+        try:
+            p[0].finalize()
+        except Exception:
+            rec.count("history_call_raised")
+    rec.count("histories_of_copies_interleaved_mid_utterance")
+    # afterwards every object, one whole utterance after another
+    for p in plans:
+        try:
+            p[0].compute_full(p[1][: len(p[1]) // 2])
+        except Exception:
+            rec.count("history_call_raised")
+
+
 def make_cfg(seed, idx):
     rng = rng_for(seed, "C04", idx, 0)
     if idx % 3 == 2:
@@ -420,6 +485,16 @@ def run_case(case, rec, mon=None):
         rec.count("configurations_not_constructible")
         rec.note("not constructible: %r %r" % (e, cfg))
         comps = []
+    if comps and case["idx"] % 4 == 1:
+        try:
+            run_copies(comps[0], rng, rec, mon)
+        except Exception as e:
+            mon.v("a history of copied computers raised %r" % (e,), check="copies_raise", **mon.info(comps[0]))
+            for o in list(mon.shadow):
+                try:
+                    o.finalize()
+                except Exception:
+                    pass
     if comps:
         sig = run_history(comps, rng, rec, mon, case["n_utts"])
         rec.count("histories")
